@@ -40,6 +40,7 @@ var c08Shapes = []string{
 	"c=1; while c { func f() { break }; c = 0 }; f()", "c=2; while c { &x = 1; func f() { continue }; c = c - 1 }; f(); c", "i=0; while i<2 { &cv = i ? 1 : 2; func g() { if 1 { break }; 3 }; i=i+1 }; g() + cv", "c=1; while c { func f() { i=0; while i<5 { i=i+1; if i==2 { break } }; i }; c = 0 }; f()",
 	"(1 ? 1 : 2)d6", "c = 1; (c ? 3 : 2)d6k1", "(1 ? 2 : true)d4", "2d((1 ? 1 : 2)d6)", "func f(c) { (c ? 1 : 2)d6 }; f(1) + f(0)", "(0 ? 1 : 2)d6", "c = 0; (c ? 2 : 3)d(c ? 4 : 6)", "(1 ? 1 : 2)a8", "(1 ? 2 : 3)c5", "b(1 ? 1 : 2)", "(1 || 2)d6", "(0 ?? 2)d6q1", "(1 ? 1 : 2)d6优势", "&cv = (1 ? 1 : 2)d6; cv",
 	"c = 0; c ? `a{;}b` : 2", "if 0 { `x{% ; %}y` }; 3", "i=0; while i<2 { `{;}`; i=i+1 }; i", "func tf(c) { return c ? `a{;}b` : 2 }; tf(0) + tf(1)", "c = 1; c ? `{% // only a comment\n %}` : 5", "0 || `p{;}q`", "c = 0; if c { `{;}{;}` } else if 1 { 7 } else { 8 }", "`{;}` + `{% ; %}` + `{1}`", "&cv = 0 ? `m{;}n` : 4; cv",
+	"y = this.x = 1; y", "func fthis() { this.a = 2 }; fthis()", "[this.q = 1, 2]", "7; y = this.x = 1; y", "i = 0; while i < 3 { i = this.c = i + 1 }; i", "`<{% q = this.w = 5 %}>`", "1 + (this.z = 2)", "this.m = this.n = 3", "func gthis(p) { return this.p = p + 1 }; gthis(1) + gthis(2)", "x = (this.y = 4) ? 5 : 6",
 	// definitions inside bodies, several per body, and at unusual positions
 	"func f(x) { p=1; q=2; &a=5; &b = x ? 1+2+3+4+5+6+7+8 : 0; a + b }; f(0) + f(1)", "func f() { [&a = 1, &b = 0 ? 3 : 4] }; f()", "func f() { func g1() { 1 ? 2 : 3 }; func g2(y) { if y { return 4 }; 5 }; g1() + g2(0) + g2(1) }; f()",
 	"&outer = (1 ? 2 : 3) + 1; func f() { &i1 = 0 || 7; &i2 = 1 && 8; func h() { while 0 { } ; 9 }; i1 + i2 + h() }; f() + outer", "func f(x) { if x { &m = x ? 1 : 2; &n = x ?? 3 ? 4 : 5; return m + n }; func z() { 0 ? 1, 1 ? 2 }; z() }; f(0); f(1)",
@@ -111,7 +112,7 @@ func opOperands(op ds.VerifOp) (need int, known bool) {
 		return 2 * n(), true
 	case "push.range":
 		return 2, true
-	case "store", "attr.get", "neg", "pos", "je", "je.dup", "jne", "pop",
+	case "store", "store.local", "attr.get", "neg", "pos", "je", "je.dup", "jne", "pop",
 		"dice.setTimes", "dice.setKeepLow", "dice.setKeepHigh", "dice.setDropLow", "dice.setDropHigh", "dice.setMin", "dice.setMax", "dice",
 		"coc.bonus", "coc.penalty", "wod.pool", "wod.points", "wod.threshold", "wod.thresholdQ", "dice.wod", "dc.setPool", "dc.setPoints", "dice.dc":
 		return 1, true
